@@ -60,6 +60,26 @@ func checkCase(t ev.TB, fe *fontEntry, c *Case, survey func(class string, f fail
 	if len(c.Vars) > 0 {
 		labels = append(labels, "variations")
 	}
+	if len(c.Coords) > 0 {
+		labels = append(labels, "normalized_coords_given")
+	}
+	if got.font != nil {
+		for _, v := range got.font.Face().Coords() {
+			if v != 0 {
+				labels = append(labels, "variable_non_default_instance")
+				break
+			}
+		}
+	}
+	if c.XPpem != 0 || c.YPpem != 0 {
+		labels = append(labels, "ppem_set")
+		if fe.device {
+			labels = append(labels, "ppem_set_font_has_device_tables")
+		}
+	}
+	if c.Ptem != 0 {
+		labels = append(labels, "ptem_set")
+	}
 	if c.Offset > 0 || c.Length < len(c.Text) {
 		labels = append(labels, "subrun")
 	}
@@ -161,7 +181,7 @@ func checkCase(t ev.TB, fe *fontEntry, c *Case, survey func(class string, f fail
 	checkMeta(fe, c, got.Glyphs, fail)
 
 	// ---- second clause: font functions at the drawn coordinates ----
-	if len(fe.axes) > 0 && !excludedDiff {
+	if len(fe.axes) > 0 && !excludedDiff && c.XPpem == 0 && c.YPpem == 0 {
 		checkFontFuncs(fe, c, got, fail)
 	}
 }
@@ -336,7 +356,7 @@ func checkMeta(fe *fontEntry, c *Case, base []G, fail func(check, class string, 
 		}
 	}
 	// (c) variations equal to the axis defaults equal no variations
-	if len(fe.axes) > 0 {
+	if len(fe.axes) > 0 && len(c.Coords) == 0 {
 		allDefault := true
 		for _, v := range c.Vars {
 			for _, a := range fe.axes {
